@@ -116,8 +116,9 @@ InitSt == [ph |-> "init", sec |-> <<"none", "none">>, sL |-> 0, sP |-> 0, rL |->
 NoOut == [kind |-> "none"]
 
 \* the scenarios; a model may override this with an explicit set of records
+\* (mf = the number of channel faults allowed in this scenario)
 ScenarioSpace == [gI : GarbageLens, gR : GarbageLens, dI : DecoyCounts, dR : DecoyCounts,
-                  hello : Hellos, pm : PrefixMatches]
+                  hello : Hellos, pm : PrefixMatches, mf : {MaxFaults}]
 
 Init ==
   /\ sc \in ScenarioSpace
@@ -303,7 +304,7 @@ SendE(e, ign, size) ==
 
 CanFault(e, i) ==
   /\ sc.hello = "v2"
-  /\ nfaults < MaxFaults
+  /\ nfaults < MaxFaults /\ nfaults < sc.mf
   /\ i \in 1..Len(wire[e])
   /\ wire[e][i].tam \notin {"cut", "cut0"}
   /\ wire[e][i].seq \in FaultSeqs
